@@ -12,7 +12,7 @@ tmp=$(mktemp ./_CoqProject.XXXXXX) || exit 1
 } > "$tmp"
 if ! cmp -s "$tmp" _CoqProject; then mv "$tmp" _CoqProject; else rm -f "$tmp"; fi
 if [ ! -f Makefile ] || [ _CoqProject -nt Makefile ] || ! grep -q "theories" Makefile.conf 2>/dev/null; then
-  mk=$(mktemp ./Makefile.XXXXXX)
+  mk=$(mktemp Makefile.XXXXXX)
   coq_makefile -f _CoqProject -o "$mk" >/dev/null && mv "$mk" Makefile && mv "$mk.conf" Makefile.conf
   rm -f "$mk" "$mk.conf"
 fi
